@@ -62,6 +62,8 @@ TNext ==
   \/ Is("Cancel") /\ Cancel(Cur.i) /\ RGhost
   \/ Is("HistConf") /\ HistConf(Cur.t) /\ RGhost
   \/ Is("HistSpend") /\ HistSpend(Cur.t) /\ RGhost
+  \/ Is("HistConfAhead") /\ HistConfAhead(Cur.t) /\ RGhost
+  \/ Is("HistSpendAhead") /\ HistSpendAhead(Cur.t) /\ RGhost
   \/ Reset
   \/ (l = Len(Trace) + 1 /\ UNCHANGED <<vars, l, rtold, rtoldAt>>)
 TSpec == TInit /\ [][TNext]_<<vars, l, rtold, rtoldAt>>
